@@ -1,0 +1,12 @@
+//go:build verif
+
+package protein
+
+import "github.com/evolbioinfo/goalign/models/protein"
+
+// Add-only accessor used by the verification harness in /verif.
+// Compiled only with -tags verif; it exposes the substitution model held by
+// the distance model (read-only use) and changes no behaviour.
+func (model *ProtDistModel) VerifModel() *protein.ProtModel {
+	return model.model
+}
